@@ -141,7 +141,9 @@ def run(ctx):
     # same command twice is always included
     same_size = [["oligo-mmap-small", "oligo-mmap-small-csv"], ["oligo-mmap-small-csv", "oligo-mmap-small-tsv", "oligo-mmap-small"],
                  ["oligo-batch", "oligo-mmap-small-tsv", "oligo-mmap-small-csv"]]
-    chosen = [[x, x] for x in sorted(S)] + same_size + hs[:quota] + [[x, x] for x in sorted(D)] + hd[:quota]
+    # a counts table left by another run (other input, other k) in the directory a coverage run with a separate counting input uses
+    stale_tables = [["cov-cli", "cov-cli-alt"], ["ctr-cli", "cov-cli-alt"], ["cov-cli-alt", "cov-cli"], ["ctr-lib-chunks-keep", "cov-cli-alt", "cov-cli"]]
+    chosen = [[x, x] for x in sorted(S)] + same_size + hs[:quota] + [[x, x] for x in sorted(D)] + stale_tables + hd[:quota]
     events = []
 
     def execute(label, loc, trace, loc_arg=None):
